@@ -692,6 +692,27 @@ mut("C17", "entity-parents-truncated-in-text", ("x/exp/schema/internal/parser/ma
 
 mut("C17", "tags-dropped-when-shape-empty", ("x/exp/schema/internal/parser/marshal.go", "		if entity.Tags != nil {\n			m.w.WriteString(\" tags \")", "		if entity.Tags != nil && len(entity.Shape) > 0 {\n			m.w.WriteString(\" tags \")"))
 
+# ---- C15
+mut("C15", "or-merges-capabilities", ("x/exp/schema/validate/typechecker.go", "	return typeBool{}, lCaps.intersect(rCaps), nil\n}\n\nfunc (v *Validator) typeOfNot", "	return typeBool{}, lCaps.merge(rCaps), nil\n}\n\nfunc (v *Validator) typeOfNot"))
+mut("C15", "optional-attr-treated-required", ("x/exp/schema/validate/cedar_type.go", "			required: !attr.Optional,", "			required: !attr.Optional || name == \"score\","))
+mut("C15", "comparison-kinds-unchecked", ("x/exp/schema/validate/typechecker.go", "	if len(errs) == 0 && lt != nil && rt != nil && !sameComparableKind(lt, rt) {", "	if false && len(errs) == 0 && lt != nil && rt != nil && !sameComparableKind(lt, rt) {"))
+mut("C15", "has-capability-any-attr", ("x/exp/schema/validate/capability.go", '''func (cs capabilitySet) has(c capability) bool {
+	return cs[c]
+}''', '''func (cs capabilitySet) has(c capability) bool {
+	if cs[c] {
+		return true
+	}
+	for k := range cs {
+		if k.varName == c.varName && len(k.attr) == len(c.attr) {
+			return true
+		}
+	}
+	return false
+}'''))
+mut("C15", "not-keeps-capabilities", ("x/exp/schema/validate/typechecker.go", '''func (v *Validator) typeOfNot(env *requestEnv, n ast.NodeTypeNot, caps capabilitySet) (cedarType, capabilitySet, error) {
+	t, _, err := v.typeOfExpr(env, n.Arg, caps)''', '''func (v *Validator) typeOfNot(env *requestEnv, n ast.NodeTypeNot, caps capabilitySet) (cedarType, capabilitySet, error) {
+	t, caps, err := v.typeOfExpr(env, n.Arg, caps)'''))
+
 # ---- C20
 mut("C20", "unmarshal-merges", ("policy_set.go", """	*p = PolicySet{
 		policies: make(PolicyMap, len(jsonPolicySet.StaticPolicies)),
